@@ -104,6 +104,12 @@ func checkC19(ctx *Ctx) {
 			c19Restore(ctx, i)
 		}
 	}
+	for pi, pol := range []string{"allkeys-lru", "allkeys-lfu", "allkeys-random", "volatile-lfu"} {
+		if ctx.Mine(pi + 4) {
+			ctx.SetCurrent("C19 eviction before setExpiry " + pol)
+			c19EvictBeforeExpiry(ctx, pol)
+		}
+	}
 	for i := 0; i < ctx.N(32, 320); i++ {
 		if ctx.Mine(i) {
 			ctx.SetCurrent(fmt.Sprintf("C19 concurrent history %d seed %d", i, ctx.Seed))
@@ -499,4 +505,46 @@ func c19Concurrent(ctx *Ctx, i int) {
 		return
 	}
 	c19FreshCompare(ctx, in, ac, root, nil, "after-concurrent-"+variant)
+}
+
+// c19EvictBeforeExpiry: a small memory limit, and every SET with an expiry is held at its setExpiry step until
+// the asynchronous cache update (and the eviction it starts) of its setValues step has finished - so the key
+// just written may be gone when its deadline is set. After every command, at rest, the reported figure must
+// equal the accounted size of what is stored, and everything stored must be accountable.
+func c19EvictBeforeExpiry(ctx *Ctx, pol string) {
+	ac := &asyncCounter{}
+	setHook(func(name string, args ...interface{}) {
+		ac.hook(name, args...)
+		if name == "ks.setExpiry" {
+			ac.wait(2 * time.Second)
+		}
+	})
+	defer setHook(nil)
+	in, err := NewInst(InstOpts{MaxMemory: 900, Policy: pol, EvictionInterval: time.Hour})
+	if err != nil {
+		ctx.Broken(err.Error())
+		return
+	}
+	defer func() { ac.wait(10 * time.Second); time.Sleep(3 * time.Millisecond); in.Close() }()
+	for k := 0; k < 40; k++ {
+		argv := []string{"SET", fmt.Sprintf("eb%02d", k%12), strings.Repeat("v", 150+k), "EXAT", "1999999999"}
+		if k%5 == 4 {
+			argv = []string{"SET", fmt.Sprintf("eb%02d", k%12), strings.Repeat("w", 100)}
+		}
+		in.Do(argv...)
+		if !ac.wait(10 * time.Second) {
+			ctx.Inconclusive("evict-before-expiry: async cache goroutines did not quiesce")
+			return
+		}
+		got := memUsed(in)
+		want, aerr := in.S.VerifAccountedSize()
+		ctx.Eval(1)
+		ctx.Class("evict-before-expiry|" + pol)
+		if aerr != nil || got != want {
+			ctx.Violate(Violation{Kind: "memory", Lane: "evict-before-expiry-" + pol,
+				What: fmt.Sprintf("policy %s, limit 900 bytes, the asynchronous eviction let run between the two steps of %s: at rest the server reports MemoryUsed=%d, the %d keys stored account for %d (size function error: %v)", pol, trunc(Step{Argv: argv}.String(), 60), got, countKeysDump(in.S.VerifDump()), want, aerr),
+				Case: map[string]interface{}{"policy": pol, "step": k}, Key: "c19|evict-before-expiry"})
+			return
+		}
+	}
 }
